@@ -32,7 +32,7 @@ NAMES = ["a", "b", "c", "sub", "data", "x.txt", "a"]
 def gen_tree(rnd, depth=0):
     """nested dict: name -> bytes | dict"""
     t = {}
-    n = rnd.choice([0, 1, 2, 3]) if depth else rnd.choice([1, 2, 3])
+    n = rnd.choice([0, 1, 2, 3]) if depth else rnd.choice([0, 1, 1, 2, 2, 3, 3])  # (an empty root directory too)
     for i in range(n):
         name = rnd.choice(NAMES)
         if name in t:
